@@ -13,30 +13,48 @@ pub const ENTRIES: [fn() -> MetadataEntry; 14] = [
     || MetadataEntry::SizeAll, || MetadataEntry::SizePkg,
 ];
 
-/// in {entries: [{name, dir: "T"/"F", files: [1..14]}]}: build the tree, iterate, read files back
+/// in {root: "dir"|"file"|"missing" (default dir), entries: [{name, dir: "T"/"F", files: [1..14],
+/// empty: [subset of files written zero-length], raw: "T" = a 0xFF byte appended to the name on disk}]}:
+/// build the tree, open it, iterate, read files back
 pub fn pkgdb(input: &Value) -> Out {
+    use std::os::unix::ffi::OsStringExt;
     let root = scratch_dir();
     let db = root.join("pkgdb");
-    std::fs::create_dir_all(&db).unwrap();
-    for e in input["entries"].as_array().unwrap() {
-        let name = to_string(&e["name"]);
-        let p = db.join(&name);
-        if e["dir"] == "T" {
-            std::fs::create_dir_all(&p).unwrap();
-            for f in e["files"].as_array().unwrap() {
-                let i = f.as_u64().unwrap() as usize - 1;
-                let ent = ENTRIES[i]();
-                std::fs::write(p.join(ent.to_filename()), format!("{} of {}\n", ent.to_filename(), name)).unwrap();
+    let kind = input["root"].as_str().unwrap_or("dir").to_string();
+    let content = |ent: &MetadataEntry, name: &str, empty: bool| if empty { String::new() } else { format!("{} of {}\n", ent.to_filename(), name) };
+    let mut empties: Vec<(String, usize)> = vec![];
+    match kind.as_str() {
+        "file" => std::fs::write(&db, "SQLite format 3\0").unwrap(),
+        "missing" => {}
+        _ => {
+            std::fs::create_dir_all(&db).unwrap();
+            for e in input["entries"].as_array().unwrap() {
+                let name = to_string(&e["name"]);
+                let mut raw = name.clone().into_bytes();
+                if e["raw"] == "T" { raw.push(0xff); }
+                let p = db.join(std::ffi::OsString::from_vec(raw));
+                if e["dir"] == "T" {
+                    std::fs::create_dir_all(&p).unwrap();
+                    let empty: Vec<usize> = e["empty"].as_array().map(|a| a.iter().map(|x| x.as_u64().unwrap() as usize).collect()).unwrap_or_default();
+                    for f in e["files"].as_array().unwrap() {
+                        let i = f.as_u64().unwrap() as usize;
+                        let ent = ENTRIES[i - 1]();
+                        let is_empty = empty.contains(&i);
+                        if is_empty { empties.push((name.clone(), i)); }
+                        std::fs::write(p.join(ent.to_filename()), content(&ent, &name, is_empty)).unwrap();
+                    }
+                } else {
+                    std::fs::write(&p, "stray").unwrap();
+                }
             }
-        } else {
-            std::fs::write(&p, "stray").unwrap();
         }
     }
     let mut listed = vec![];
+    let mut errors = 0u64;
     let mut reads_ok = true;
     let mut evals = 1;
-    match PkgDB::open(&db) {
-        Err(_) => { listed.push(json!("open failed")); }
+    let open = match PkgDB::open(&db) {
+        Err(_) => "err",
         Ok(it) => {
             for item in it {
                 evals += 1;
@@ -44,9 +62,10 @@ pub fn pkgdb(input: &Value) -> Out {
                     Ok(pkg) => {
                         listed.push(json!({"pkgname": codes(pkg.pkgname()), "base": codes(pkg.pkgbase()), "version": codes(pkg.pkgversion())}));
                         // reading a metadata entry returns that package's '+FILE' content
-                        for mk in ENTRIES.iter() {
+                        for (i, mk) in ENTRIES.iter().enumerate() {
                             let ent = mk();
-                            let want = format!("{} of {}\n", ent.to_filename(), pkg.pkgname());
+                            let is_empty = empties.iter().any(|(n, f)| n == pkg.pkgname() && *f == i + 1);
+                            let want = content(&ent, pkg.pkgname(), is_empty);
                             let present = db.join(pkg.pkgname()).join(ent.to_filename()).exists();
                             match pkg.read_metadata(mk()) {
                                 Ok(s) => reads_ok &= present && s == want,
@@ -54,15 +73,17 @@ pub fn pkgdb(input: &Value) -> Out {
                             }
                         }
                     }
-                    Err(_) => listed.push(json!("item error")),
+                    Err(_) => errors += 1,
                 }
+                if evals > 10_000 { break; }
             }
+            "ok"
         }
-    }
+    };
     let _ = std::fs::remove_dir_all(&root);
     listed.sort_by_key(|v| v.to_string());
     let n = listed.len() as u64;
-    Out::new(json!({"listed": listed, "reads_ok": tf(reads_ok)}), evals, (n > 0) as u64)
+    Out::new(json!({"open": open, "listed": listed, "errors": errors, "reads_ok": tf(reads_ok)}), evals, (n > 0) as u64)
 }
 
 pub fn pkgdb_compare(case: &Value, obs: &Value) -> Vec<Mismatch> {
@@ -71,8 +92,8 @@ pub fn pkgdb_compare(case: &Value, obs: &Value) -> Vec<Mismatch> {
     exp.sort_by_key(|v| v.to_string());
     let got = obs["listed"].as_array().cloned().unwrap_or_default();
     let mut ms = vec![];
-    if exp != got {
-        ms.push(Mismatch { tag: String::new(), detail: json!({"expected": exp, "observed": got}) });
+    if exp != got || case["out"]["open"] != obs["open"] || case["out"]["errors"] != obs["errors"] {
+        ms.push(Mismatch { tag: String::new(), detail: json!({"expected": case["out"], "observed": obs}) });
     }
     if obs["reads_ok"] != "T" {
         ms.push(Mismatch { tag: String::new(), detail: json!({"expected": "read_metadata returns the package's +FILE content", "observed": obs["reads_ok"]}) });
